@@ -1,6 +1,6 @@
 (* C18: proofs about the registration of native functions (VmRegistry.v). *)
 From Coq Require Import NArith ZArith List Lia Bool.
-From Cao Require Import ListUtil Bits Stacks Vm VmRegistry.
+From Cao Require Import ListUtil CheckUtil Bits Stacks Vm VmRegistry.
 Import ListNotations.
 
 Lemma assoc_reg_remove_other h h' (r : registry) :
@@ -45,14 +45,6 @@ Proof.
   intros H. unfold reg_insert. cbn [map fst]. constructor; [apply reg_remove_not_in|apply reg_remove_nodup; exact H].
 Qed.
 
-Lemma register_public_get r name f h :
-  reg_get (fst (register_public r name f)) h
-  = if accepted (name, f) && N.eqb (handle_of_bytes name) h then Some (mkProc name f) else reg_get r h.
-Proof.
-  unfold register_public, accepted. cbn [fst]. destruct (starts_reserved name); cbn [negb andb fst]; [reflexivity|].
-  unfold register_private. cbn [fst]. rewrite reg_get_insert, N.eqb_sym. reflexivity.
-Qed.
-
 Lemma find_app (A : Type) (p : A -> bool) l1 l2 :
   find p (l1 ++ l2) = match find p l1 with Some x => Some x | None => find p l2 end.
 Proof. induction l1 as [|a l1 IH]; cbn [app find]; [reflexivity|]. destruct (p a); auto. Qed.
@@ -72,29 +64,63 @@ Proof.
   destruct (run_public r1 rest) as [r2 l]. reflexivity.
 Qed.
 
-(* The table after ANY history of public registrations: under every handle, the procedure of the LAST accepted
-   registration whose name has that handle (name and function both replaced), otherwise what was there before *)
+Lemma name_eqb_eq a b : name_eqb a b = true <-> a = b.
+Proof. unfold name_eqb. apply list_eqb_spec. intros x y. apply N.eqb_eq. Qed.
+
+(* one public registration: the answer is [register_answer]; the table changes only when the answer is Ok(()) *)
+Lemma register_public_cases r name f :
+  register_public r name f
+  = (if is_ok (register_answer r name) then reg_insert r (handle_of_bytes name) (mkProc name f) else r,
+     register_answer r name).
+Proof.
+  unfold register_public, register_answer, register_private. destruct (starts_reserved name); [reflexivity|].
+  destruct (reg_get r (handle_of_bytes name)) as [p|]; [|reflexivity].
+  destruct (name_eqb (pr_name p) name); reflexivity.
+Qed.
+
+Lemma run_public_length : forall ops r, length (snd (run_public r ops)) = length ops.
+Proof.
+  induction ops as [|[name f] rest IH]; intros r; [reflexivity|].
+  rewrite run_public_cons. cbn [snd length]. rewrite IH. reflexivity.
+Qed.
+
+Lemma run_public_app : forall a b r,
+  run_public r (a ++ b)
+  = (fst (run_public (fst (run_public r a)) b),
+     snd (run_public r a) ++ snd (run_public (fst (run_public r a)) b)).
+Proof.
+  induction a as [|[name f] a IH]; intros b r.
+  - cbn [app run_public fst snd]. destruct (run_public r b); reflexivity.
+  - cbn [app]. rewrite !run_public_cons. cbn [fst snd]. rewrite IH. reflexivity.
+Qed.
+
+(* The table after ANY history of public registrations: under every handle, the procedure (name and function) of
+   the LAST registration that was answered Ok(()) and whose name has that handle; otherwise what was there before *)
 Theorem registry_history : forall ops r h,
   reg_get (fst (run_public r ops)) h
-  = match last_accepted ops h with
+  = match last_ok ops (snd (run_public r ops)) h with
     | Some (name, f) => Some (mkProc name f)
     | None => reg_get r h
     end.
 Proof.
   induction ops as [|[name f] rest IH]; intros r h; [reflexivity|].
-  rewrite run_public_cons. cbn [fst]. rewrite IH. unfold last_accepted. cbn [rev]. rewrite find_app.
-  fold (last_accepted rest h). destruct (last_accepted rest h) as [[nm g]|]; [reflexivity|].
-  cbn [find]. rewrite register_public_get. cbn [fst].
-  destruct (accepted (name, f) && N.eqb (handle_of_bytes name) h); reflexivity.
+  rewrite run_public_cons. cbn [fst snd]. rewrite IH. unfold last_ok. cbn [combine rev]. rewrite find_app.
+  destruct (find _ (rev (combine rest _))) as [[[nm g] a]|]; [reflexivity|].
+  cbn [find fst snd]. rewrite register_public_cases. cbn [fst snd].
+  destruct (is_ok (register_answer r name)); cbn [andb]; [|reflexivity].
+  rewrite reg_get_insert, (N.eqb_sym h). destruct (N.eqb (handle_of_bytes name) h); reflexivity.
 Qed.
 
-(* the answers: a registration is rejected exactly when the name starts with "__" *)
-Theorem registry_answers : forall ops r,
-  snd (run_public r ops) = map (fun op => if starts_reserved (fst op) then RegRejected else RegOk) ops.
+(* the answers: the i-th registration is answered by [register_answer] on the table the registrations before it
+   produced - rejected exactly when the name starts with "__" (RegRejected) or its handle is held by an entry
+   registered under another name (RegCollides) *)
+Theorem registry_answers : forall pre name f post r,
+  nth (length pre) (snd (run_public r (pre ++ (name, f) :: post))) RegOk
+  = register_answer (fst (run_public r pre)) name.
 Proof.
-  induction ops as [|[name f] rest IH]; intros r; [reflexivity|].
-  rewrite run_public_cons. cbn [snd map fst]. rewrite IH. f_equal.
-  unfold register_public. destruct (starts_reserved name); reflexivity.
+  intros pre name f post r. rewrite run_public_app. cbn [snd].
+  rewrite app_nth2 by (rewrite run_public_length; lia). rewrite run_public_length, Nat.sub_diag.
+  rewrite run_public_cons. cbn [snd nth]. rewrite register_public_cases. reflexivity.
 Qed.
 
 (* a rejected registration changes nothing *)
@@ -115,41 +141,102 @@ Lemma vm_new_registry_get n :
   reg_get vm_new_registry (handle_of_bytes (native_name n)) = Some (mkProc (native_name n) (StdFn n)).
 Proof. intros Hn. cbn in Hn. destruct Hn as [<-|[<-|[<-|[<-|[]]]]]; vm_compute; reflexivity. Qed.
 
-(* After any history of public registrations on a new VM in which no ACCEPTED name has the handle of a library
-   native, the four library natives are still the registered ones, under their own names *)
+(* the NAME under a handle never changes: once a handle is taken, only its owner can replace the function *)
+Theorem registry_name_stable : forall ops r h p,
+  reg_get r h = Some p ->
+  exists f, reg_get (fst (run_public r ops)) h = Some (mkProc (pr_name p) f).
+Proof.
+  induction ops as [|[name g] rest IH]; intros r h p Hp.
+  - exists (pr_fun p). cbn [run_public fst]. rewrite Hp. destruct p; reflexivity.
+  - rewrite run_public_cons. cbn [fst]. rewrite register_public_cases. cbn [fst].
+    destruct (is_ok (register_answer r name)) eqn:Ea; [|apply IH; exact Hp].
+    destruct (N.eqb h (handle_of_bytes name)) eqn:Eh.
+    + apply N.eqb_eq in Eh. subst h.
+      assert (En : pr_name p = name).
+      { unfold register_answer in Ea. destruct (starts_reserved name); [discriminate|]. rewrite Hp in Ea.
+        destruct (name_eqb (pr_name p) name) eqn:E; [|discriminate]. apply name_eqb_eq. exact E. }
+      destruct (IH (reg_insert r (handle_of_bytes name) (mkProc name g)) (handle_of_bytes name) (mkProc name g))
+        as (f' & Hf'); [rewrite reg_get_insert, N.eqb_refl; reflexivity|].
+      exists f'. rewrite Hf', En. reflexivity.
+    + apply IH. rewrite reg_get_insert, Eh. exact Hp.
+Qed.
+
+(* an entry registered under a reserved name is never touched by the public entry: neither its name nor its
+   function *)
+Theorem reserved_entry_kept : forall ops r h p,
+  reg_get r h = Some p -> starts_reserved (pr_name p) = true ->
+  reg_get (fst (run_public r ops)) h = Some p.
+Proof.
+  induction ops as [|[name g] rest IH]; intros r h p Hp Hres; [exact Hp|].
+  rewrite run_public_cons. cbn [fst]. rewrite register_public_cases. cbn [fst].
+  destruct (is_ok (register_answer r name)) eqn:Ea; [|apply IH; assumption].
+  apply IH; [|exact Hres]. rewrite reg_get_insert.
+  destruct (N.eqb h (handle_of_bytes name)) eqn:Eh; [|exact Hp].
+  apply N.eqb_eq in Eh. subst h. exfalso.
+  unfold register_answer in Ea. destruct (starts_reserved name) eqn:Er; [discriminate|]. rewrite Hp in Ea.
+  destruct (name_eqb (pr_name p) name) eqn:E; [|discriminate]. apply name_eqb_eq in E. congruence.
+Qed.
+
+(* After ANY history of public registrations on a new VM each of the four library natives is still registered
+   under its own name with its own function (no hypothesis on hashes: d80a79a) *)
 Theorem std_natives_kept : forall ops n,
   In n std_natives ->
-  (forall name f, In (name, f) ops -> starts_reserved name = false ->
-                  handle_of_bytes name <> handle_of_bytes (native_name n)) ->
   reg_get (fst (run_public vm_new_registry ops)) (handle_of_bytes (native_name n))
   = Some (mkProc (native_name n) (StdFn n)).
 Proof.
-  intros ops n Hn Hfree. rewrite registry_history.
-  assert (E : last_accepted ops (handle_of_bytes (native_name n)) = None).
-  { unfold last_accepted. apply find_all_false. intros [name f] Hin. apply in_rev in Hin.
-    unfold accepted. cbn [fst]. destruct (starts_reserved name) eqn:Er; [reflexivity|]. cbn [negb andb].
-    apply N.eqb_neq. apply (Hfree name f Hin Er). }
-  rewrite E. apply vm_new_registry_get. exact Hn.
+  intros ops n Hn. apply reserved_entry_kept; [apply vm_new_registry_get; exact Hn|].
+  cbn [pr_name]. cbn in Hn. destruct Hn as [<-|[<-|[<-|[<-|[]]]]]; reflexivity.
 Qed.
 
-(* ... and the hypothesis is needed: the reservation is by NAME, the table is keyed by the 32-bit HASH of the name.
-   "tuewgsg" does not start with "__", is accepted, and replaces the library's __min (name and function) *)
-Theorem std_native_shadowed_by_collision : forall f,
-  starts_reserved name_collides_min = false /\
-  handle_of_bytes name_collides_min = handle_of_bytes name_min /\
-  run_public vm_new_registry [(name_collides_min, f)]
-  = (fst (run_public vm_new_registry [(name_collides_min, f)]), [RegOk]) /\
-  reg_get (fst (run_public vm_new_registry [(name_collides_min, f)])) (handle_of_bytes name_min)
-  = Some (mkProc name_collides_min f).
-Proof. intros f. repeat split. Qed.
+(* the four ordinary names that have the handle of a library native *)
+Definition collisions : list (list N * native) :=
+  [(name_collides_min, NStdMin); (name_collides_max, NStdMax); (name_collides_sort, NStdSort);
+   (name_collides_to_array, NStdToArray)].
 
-(* a later accepted registration of the same name replaces the earlier one *)
+(* N-C18-1 repaired: an ordinary name with the handle of a library native (e.g. "tuewgsg" ~ "__min") is not
+   reserved, has that handle, and is REJECTED (RegCollides) at any point of any history on a new VM; the table is
+   left as it is and the library native stays registered *)
+Theorem colliding_name_rejected : forall ops c n f,
+  In (c, n) collisions ->
+  let r := fst (run_public vm_new_registry ops) in
+  starts_reserved c = false /\
+  handle_of_bytes c = handle_of_bytes (native_name n) /\
+  register_public r c f = (r, RegCollides) /\
+  reg_get r (handle_of_bytes c) = Some (mkProc (native_name n) (StdFn n)).
+Proof.
+  intros ops c n f Hin r.
+  assert (Hn : In n std_natives /\ starts_reserved c = false /\
+               handle_of_bytes c = handle_of_bytes (native_name n) /\ name_eqb (native_name n) c = false).
+  { cbn in Hin. destruct Hin as [E|[E|[E|[E|[]]]]]; inversion E; subst c n; cbn [std_natives In];
+      (split; [tauto|]); repeat split; vm_compute; reflexivity. }
+  destruct Hn as (Hn & Hres & Hh & Hne).
+  pose proof (std_natives_kept ops n Hn) as Hk. fold r in Hk.
+  repeat split; auto.
+  - rewrite register_public_cases. unfold register_answer. rewrite Hres, Hh, Hk. cbn [pr_name]. rewrite Hne.
+    reflexivity.
+  - rewrite Hh. exact Hk.
+Qed.
+
+(* a later registration of a name: it replaces name and function when the handle is free or held by the same
+   name; when the handle is held by another name it is answered RegCollides and the table is unchanged *)
 Theorem registration_replaces : forall ops r name g,
   starts_reserved name = false ->
-  reg_get (fst (run_public r (ops ++ [(name, g)]))) (handle_of_bytes name) = Some (mkProc name g).
+  let r1 := fst (run_public r ops) in
+  ((forall p, reg_get r1 (handle_of_bytes name) = Some p -> pr_name p = name) ->
+   reg_get (fst (run_public r (ops ++ [(name, g)]))) (handle_of_bytes name) = Some (mkProc name g) /\
+   snd (run_public r (ops ++ [(name, g)])) = snd (run_public r ops) ++ [RegOk]) /\
+  (forall p, reg_get r1 (handle_of_bytes name) = Some p -> pr_name p <> name ->
+   run_public r (ops ++ [(name, g)]) = (r1, snd (run_public r ops) ++ [RegCollides])).
 Proof.
-  intros ops r name g Hn. rewrite registry_history. unfold last_accepted. rewrite rev_app_distr. cbn [rev app find].
-  unfold accepted. cbn [fst]. rewrite Hn, N.eqb_refl. reflexivity.
+  intros ops r name g Hres r1. rewrite run_public_app. cbn [fst snd]. fold r1.
+  rewrite run_public_cons. cbn [run_public fst snd]. rewrite register_public_cases. cbn [fst snd].
+  unfold register_answer. rewrite Hres. split.
+  - intros Hown. destruct (reg_get r1 (handle_of_bytes name)) as [p|] eqn:Ep.
+    + rewrite (proj2 (name_eqb_eq (pr_name p) name) (Hown p eq_refl)). cbn [is_ok].
+      rewrite reg_get_insert, N.eqb_refl. split; reflexivity.
+    + cbn [is_ok]. rewrite reg_get_insert, N.eqb_refl. split; reflexivity.
+  - intros p Hp Hne. rewrite Hp.
+    destruct (name_eqb (pr_name p) name) eqn:E; [apply name_eqb_eq in E; contradiction|]. reflexivity.
 Qed.
 
 (* the table never holds two entries for one handle *)
@@ -157,8 +244,8 @@ Theorem registry_nodup : forall ops r,
   NoDup (map fst r) -> NoDup (map fst (fst (run_public r ops))).
 Proof.
   induction ops as [|[name f] rest IH]; intros r H; [exact H|].
-  rewrite run_public_cons. cbn [fst]. apply IH. unfold register_public.
-  destruct (starts_reserved name); cbn [fst]; [exact H|]. apply reg_insert_nodup. exact H.
+  rewrite run_public_cons. cbn [fst]. apply IH. rewrite register_public_cases. cbn [fst].
+  destruct (is_ok (register_answer r name)); [apply reg_insert_nodup|]; exact H.
 Qed.
 
 (* ------------------------------------------------------------------ *)
